@@ -399,7 +399,7 @@ func (p *lockParty) fail(prop string, oracle, sig, format string, a ...interface
 	} else {
 		sig = oracle + ":" + sig
 	}
-	p.viol = &Violation{Prop: prop, Oracle: oracle, Sig: sig, Detail: fmt.Sprintf("party %d: %s", p.id, fmt.Sprintf(format, a...))}
+	p.viol = &Violation{Prop: prop, Oracle: oracle, Sig: scrub(sig), Detail: scrub(fmt.Sprintf("party %d: %s", p.id, fmt.Sprintf(format, a...)))}
 }
 
 // dirHash hashes names, sizes and bytes of every file of dir except the lock file.
